@@ -256,10 +256,11 @@ def main():
                                                       dtype="Lorentzian")
             prop = ReducedDensityMatrixPropagator(ta, ham, **kwargs)
             Lm = liouvillian(H, Ks, rates, gam)
-            # the SAME propagator is used with a sequence of refinements
+            # the SAME propagator is used with a sequence of refinements,
+            # and the SAME initial-state object is handed to every call
+            r = qr.ReducedDensityMatrix(data=rho0.astype(complex).copy())
             for nref in [int(x) for x in rng.permutation([1, 2, 3])[:2]]:
                 prop.setDtRefinement(nref)
-                r = qr.ReducedDensityMatrix(data=rho0.copy())
                 with contextlib.redirect_stdout(io.StringIO()):
                     ev = prop.propagate(r, method="short-exp-%d" % order)
                 if rwa:
